@@ -457,7 +457,7 @@ func unfinished(c *Case, e *env) string {
 		// generated END (a generated node would have been scheduled together with END and dropped)
 		var passes [][]string // the passes of every call, in order
 		for _, seg := range e.segs {
-			passes = append(passes, seg...)
+			passes = append(passes, seg.sched...)
 		}
 		if len(passes) == 0 { // END generated by START itself
 			gen := append([]int(nil), controls[START]...)
@@ -544,32 +544,31 @@ func coqGraph(nodes []NodeSpec, startBranches []BranchSpec, writeTo, controls ma
 	return lib.CoqList(calls)
 }
 
-// coqSched renders one run's schedule: START's pseudo task, then the recorded batches, each task
-// with the outcome of its branch conditions (the k-th execution of a node uses the k-th logged
-// evaluation of each of its branches; seen counts the executions across runs).
-func coqSched(e *env, sched [][]string, nodes []NodeSpec, startBranches []BranchSpec, startID int, idOf func(int) int, seen map[int]int, withStart bool) (string, bool) {
-	entry := func(id, local int, brs []BranchSpec) (string, bool) {
-		k := seen[id]
-		seen[id]++
-		var outs []string
-		for bi := range brs {
-			log := e.brLog[[2]int{id, bi}]
-			if k >= len(log) {
-				return "", false
-			}
-			outs = append(outs, coqKeys(log[k]))
-		}
-		return lib.CoqPair(lib.CoqN(coqKey(local)), lib.CoqList(outs)), true
-	}
-	out := []string{}
-	if withStart {
-		st, ok := entry(startID, START, startBranches)
-		if !ok {
+// coqEntry renders one collected task with the outcome of its branch conditions (the k-th execution of a
+// node uses the k-th logged evaluation of each of its branches; seen counts the executions across runs).
+func coqEntry(e *env, id, local int, brs []BranchSpec, seen map[int]int) (string, bool) {
+	k := seen[id]
+	seen[id]++
+	var outs []string
+	for bi := range brs {
+		log := e.brLog[[2]int{id, bi}]
+		if k >= len(log) {
 			return "", false
 		}
-		out = append(out, lib.CoqList([]string{st}))
+		outs = append(outs, coqKeys(log[k]))
 	}
-	for _, b := range sched {
+	return lib.CoqPair(lib.CoqN(coqKey(local)), lib.CoqList(outs)), true
+}
+
+// coqCall renders one recorded call: its batches and the tasks that interrupted themselves (those carry
+// no branch outcomes: their branches were not evaluated).
+func coqCall(e *env, call callRec, nodes []NodeSpec, idOf func(int) int, seen map[int]int) (string, bool) {
+	isRR := map[string]bool{}
+	for _, k := range call.rr {
+		isRR[k] = true
+	}
+	var out []string
+	for _, b := range call.sched {
 		var items []string
 		for _, key := range b {
 			id, ok := nodeIndex(key)
@@ -585,7 +584,11 @@ func coqSched(e *env, sched [][]string, nodes []NodeSpec, startBranches []Branch
 			if local < 0 {
 				return "", false
 			}
-			it, ok := entry(id, local, nodes[local].Branches)
+			if isRR[key] {
+				items = append(items, lib.CoqPair(lib.CoqN(coqKey(local)), lib.CoqList(nil)))
+				continue
+			}
+			it, ok := coqEntry(e, id, local, nodes[local].Branches, seen)
 			if !ok {
 				return "", false
 			}
@@ -593,7 +596,16 @@ func coqSched(e *env, sched [][]string, nodes []NodeSpec, startBranches []Branch
 		}
 		out = append(out, lib.CoqList(items))
 	}
-	return lib.CoqList(out), true
+	var rr []uint64
+	for _, key := range call.rr {
+		id, _ := nodeIndex(key)
+		for j := range nodes {
+			if idOf(j) == id {
+				rr = append(rr, coqKey(j))
+			}
+		}
+	}
+	return lib.CoqApp("mkseg", lib.CoqList(out), lib.CoqNList(rr)), true
 }
 
 // coqCase renders the compiled graph (chanCall of START and of every node), the interrupt
@@ -601,41 +613,50 @@ func coqSched(e *env, sched [][]string, nodes []NodeSpec, startBranches []Branch
 // (the batches of completed tasks with the outcome of their branch conditions), the runs of the nested
 // graphs (each with its own graph and schedule) and the hook observables (totals over all runs).
 func coqCase(c *Case, e *env, sum *hookSummary) (string, bool) {
-	if extraInterrupts(c) {
-		return "", false // InterruptAndRerun / nested-graph interrupts are not in the model: oracle only
-	}
 	e.mu.Lock()
 	defer e.mu.Unlock()
 	writeTo, controls := c.callsOf()
 	seen := map[int]int{}
-	if len(e.segs) != e.resumes+1 {
-		if !(len(e.segs) == 0 && e.resumes == 0) { // START -> END only: no task manager event at all
-			return "", false
-		}
+	ident := func(i int) int { return i }
+	start, ok := coqEntry(e, START, START, c.StartBranches, seen)
+	if !ok {
+		return "", false
 	}
-	var segs []string
-	if len(e.segs) == 0 {
-		top, ok := coqSched(e, nil, c.Nodes, c.StartBranches, START, func(i int) int { return i }, seen, true)
+	var tms []string
+	// successful completions of every top-level node (a nested graph node: its finished runs)
+	done := map[int]int{}
+	fired := []uint64{}
+	for _, call := range e.segs {
+		tm, ok := coqCall(e, call, c.Nodes, ident, seen)
 		if !ok {
 			return "", false
 		}
-		segs = append(segs, top)
-	}
-	for k, sched := range e.segs {
-		seg, ok := coqSched(e, sched, c.Nodes, c.StartBranches, START, func(i int) int { return i }, seen, k == 0)
-		if !ok {
-			return "", false
+		tms = append(tms, tm)
+		isRR := map[string]bool{}
+		for _, k := range call.rr {
+			isRR[k] = true
 		}
-		segs = append(segs, seg)
-	}
-	// nested runs: each belongs to the outer node named in its first task
-	var subs []string
-	runsOf := map[int]int{}
-	for _, sched := range e.subScheds {
-		if len(sched) == 0 || len(sched[0]) == 0 {
-			return "", false // a nested run without a task cannot be attributed
+		for _, b := range call.sched {
+			for _, key := range b {
+				id, ok := nodeIndex(key)
+				if !ok || id >= subBase {
+					return "", false
+				}
+				if !isRR[key] {
+					done[id]++
+					fired = append(fired, coqKey(id))
+				}
+			}
 		}
-		id, ok := nodeIndex(sched[0][0])
+	}
+	// nested graph nodes: the recorded calls of all the runs of a node, in order; a call belongs to the
+	// outer node named in its first task
+	callsOfNode := map[int][]callRec{}
+	for _, call := range e.subCalls {
+		if len(call.sched) == 0 || len(call.sched[0]) == 0 {
+			return "", false // a nested call without a task cannot be attributed
+		}
+		id, ok := nodeIndex(call.sched[0][0])
 		if !ok || id < subBase {
 			return "", false
 		}
@@ -643,39 +664,37 @@ func coqCase(c *Case, e *env, sum *hookSummary) (string, bool) {
 		if outer >= len(c.Nodes) || c.Nodes[outer].Sub == nil {
 			return "", false
 		}
+		callsOfNode[outer] = append(callsOfNode[outer], call)
+	}
+	var subs []string
+	for outer := range c.Nodes {
 		sub := c.Nodes[outer].Sub
-		runsOf[outer]++
+		if sub == nil || (done[outer] == 0 && len(callsOfNode[outer]) == 0) {
+			continue
+		}
 		sw, sc := map[int][]int{START: sub.StartSucc}, map[int][]int{START: sub.StartSucc}
 		for j, n := range sub.Nodes {
 			sw[j], sc[j] = n.Succ, n.Succ
 		}
 		idOf := func(j int) int { return subBase*(outer+1) + j }
-		ss, ok := coqSched(e, sched, sub.Nodes, sub.StartBranches, subBase*(outer+1)+subStart, idOf, seen, true)
-		if !ok {
-			return "", false
-		}
-		subs = append(subs, lib.CoqApp("mkSub", lib.CoqBool(sub.Mode != "pregel"), coqGraph(sub.Nodes, sub.StartBranches, sw, sc, false), ss))
-	}
-	// every execution of a nested graph node must have been attributed
-	fired := []uint64{}
-	for _, seg := range e.segs {
-		for _, b := range seg {
-			for _, key := range b {
-				id, ok := nodeIndex(key)
-				if !ok || id >= subBase {
-					return "", false
-				}
-				fired = append(fired, coqKey(id))
-				if c.Nodes[id].Sub != nil {
-					runsOf[id]--
-				}
+		var starts []string
+		for k := 0; k < done[outer]; k++ { // one run per execution of the node
+			st, ok := coqEntry(e, subBase*(outer+1)+subStart, START, sub.StartBranches, seen)
+			if !ok {
+				return "", false
 			}
+			starts = append(starts, lib.CoqList([]string{st}))
 		}
-	}
-	for _, n := range runsOf {
-		if n != 0 {
-			return "", false
+		var stms []string
+		for _, call := range callsOfNode[outer] {
+			tm, ok := coqCall(e, call, sub.Nodes, idOf, seen)
+			if !ok {
+				return "", false
+			}
+			stms = append(stms, tm)
 		}
+		subs = append(subs, lib.CoqApp("mkSubs", lib.CoqBool(sub.Mode != "pregel"), coqGraph(sub.Nodes, sub.StartBranches, sw, sc, false),
+			coqKeys(sub.IntBefore), coqKeys(sub.IntAfter), lib.CoqList(starts), lib.CoqList(stms)))
 	}
 	sort.Slice(fired, func(i, j int) bool { return fired[i] < fired[j] })
 	cps := make([]string, len(sum.Copies))
@@ -693,8 +712,12 @@ func coqCase(c *Case, e *env, sum *hookSummary) (string, bool) {
 		}
 		return n
 	}
-	for _, x := range e.execs {
-		sides = append(sides, lib.CoqPair(lib.CoqNat(streamSides(c.spec(x))), lib.CoqNat(handlersAt(x))))
+	for k, x := range e.execs {
+		n := streamSides(c.spec(x))
+		if e.execRerun[k] {
+			n = 1 // the execution ends with an error: only its input side is a streaming callback site
+		}
+		sides = append(sides, lib.CoqPair(lib.CoqNat(n), lib.CoqNat(handlersAt(x))))
 	}
 	passKeys := []string{}
 	for key := range e.collected {
@@ -718,7 +741,7 @@ func coqCase(c *Case, e *env, sum *hookSummary) (string, bool) {
 	}
 	return lib.CoqApp("mkRS", lib.CoqBool(c.Mode != "pregel"), lib.CoqBool(c19Eager(c)),
 		coqGraph(c.Nodes, c.StartBranches, writeTo, controls, c.Mode == "workflow"),
-		coqKeys(c.IntBefore), coqKeys(c.IntAfter), lib.CoqList(segs), lib.CoqList(subs),
+		coqKeys(c.IntBefore), coqKeys(c.IntAfter), lib.CoqList([]string{start}), lib.CoqList(tms), lib.CoqList(subs),
 		lib.CoqList(cps), lib.CoqNat(sum.ResolveCloses), lib.CoqNat(sum.UpdateCloses), lib.CoqNat(sum.ChanCloses), lib.CoqNat(sum.SkipCloses),
 		lib.CoqList(mgs), lib.CoqNList(fired),
 		lib.CoqNat(c.Handlers), lib.CoqList(sides), lib.CoqList(cbc),
@@ -880,7 +903,7 @@ func tagsOf(c *Case, e *env, o *Obs) []string {
 	if e.resumes > 0 {
 		t = append(t, "has:interrupt-resume")
 	}
-	if len(e.subScheds) > 0 {
+	if len(e.subCalls) > 0 {
 		t = append(t, "has:nested-run")
 	}
 	if e.resumes > 0 {
